@@ -60,10 +60,19 @@ def gen_case(ctx, gen, tier):
         if tier == "Z":
             t = gen.tree(r.randint(0, 2), (n, n), False)
             dt = r.choice(["float64", "float64", "float32"])
-        else:
+        elif tier == "F":
+            t = None
+            dt = r.choice(["float64", "float64", "float32"])
+        elif tier == "C":          # complex operators: oracle only (the Coq model is over a real ring / binary64)
+            t = None
+            dt = r.choice(["complex128", "complex64"])
+        else:                      # "B": n > 100, so bs = 100 != n: oracle only
             t = None
             dt = "float64"
+            n = r.choice([101, 107, 128])
         k = r.choice([0, 0, 0] + list(range(-(n - 1), n)))
+        if tier == "B":
+            k = r.choice([0, 0, 1, -1, 3, -(n - 1), n - 1])
         mi = r.choice([0, 1, 2, 3, 4, 5, 6, 8, 10, 12])
         tol = r.choice([1.1e-3, 0.003, 0.01, 0.02, 0.03, 0.05, 0.1, 0.2, 0.4, 1.0]) * (1 + r.random())
         key = None if r.random() < 0.2 else r.randint(0, 2 ** 31)
@@ -84,15 +93,20 @@ def gen_case(ctx, gen, tier):
         else:
             rs = np.random.RandomState(r.randint(0, 2 ** 31))
             D = rs.randn(n, n) * r.choice([0.1, 1.0, 10.0])
+            if tier == "C":
+                D = D + 1j * rs.randn(n, n)
+            if tier == "B":
+                mi = r.choice([1, 2, 3])
             if r.random() < 0.3:
                 D = D @ D.T
-            if r.random() < 0.35 and n >= 3:
+            if r.random() < 0.35 and n >= 3 and tier == "F":
                 D = np.diag(8 + 4 * rs.rand(n)) + 0.5 * rs.randn(n, n)
                 k = 0
                 mi = r.choice([8, 10, 12])
                 tol = r.choice([0.03, 0.04, 0.05, 0.07]) * (1 + r.random())
+            D = D.astype(dt).astype(np.complex128 if tier == "C" else np.float64)     # exactly representable in the operator's dtype
         return dict(tier=tier, n=n, k=k, max_iters=mi, tol=tol, key=key, dt=dt, tree=t,
-                    D=D.tolist(), rand="rademacher" if tier == "Z" else "normal")
+                    D=D.tolist(), rand="rademacher" if tier == "Z" else r.choice(["normal", "normal", "rademacher"]))
     raise RuntimeError("generator starved")
 
 
@@ -149,7 +163,9 @@ def oracle(case, obs):
     if not obs.get("ok"):
         return [f"raised {obs.get('err')}"]
     n, k, mi = case["n"], case["k"], case["max_iters"]
-    D = np.array(case["D"], dtype=np.float64)
+    cplx = np.dtype(case["dt"]).kind == "c"
+    wide = np.complex128 if cplx else np.float64
+    D = np.array(case["D"], dtype=wide)
     it = obs["iters"]
     if not obs["state_same"]:
         bad.append("global numpy RNG state changed")
@@ -162,18 +178,28 @@ def oracle(case, obs):
     if obs["info_iters"] != it:
         bad.append(f"info['iterations']-1 = {obs['info_iters']} but {it} products were made")
     bs = min(100, n)
-    tot = np.zeros(n - abs(k))
+    tot = np.zeros(n - abs(k), dtype=wide)
+    # the i*bs probes must be independent draws: two identical blocks have probability 0 (Gaussian) / 2^-(n*bs) (signs)
+    blocks = obs["probes"]
+    if case["rand"] == "normal":
+        same = [(a, b) for a in range(len(blocks)) for b in range(a + 1, len(blocks)) if blocks[a].shape == blocks[b].shape and np.array_equal(blocks[a], blocks[b])]
+    else:
+        all_same = len(blocks) >= 2 and all(bl.shape == blocks[0].shape and np.array_equal(bl, blocks[0]) for bl in blocks[1:])
+        same = [(0, len(blocks) - 1)] if all_same and n * bs * (len(blocks) - 1) >= 40 else []
+    if same:
+        bad.append(f"probe blocks of iterations {same[0][0]} and {same[0][1]} are identical: the {it}*{bs} probes are not independent draws, "
+                   "so the estimate is not within the sampling error its own variance (stderr ~ 1/sqrt(i*bs)) implies")
     for t, z in enumerate(obs["probes"]):
         if z.shape != (n, bs):
             bad.append(f"probe block {t} has shape {z.shape}")
             return bad
-        z = z.astype(np.float64)
+        z = z.astype(wide)
         Az = D @ z
         rows = np.arange(n - abs(k)) + (abs(k) if k < 0 else 0)
         tot += (Az[rows] * z[rows + k]).sum(-1)
     want = tot / (it * bs)
-    got = np.asarray(obs["out"], dtype=np.float64)
-    tol = 1e-9 if case["dt"] == "float64" else 2e-4
+    got = np.asarray(obs["out"], dtype=wide)
+    tol = 1e-9 if case["dt"] in ("float64", "complex128") else 2e-4
     if got.shape != want.shape or not np.allclose(got, want, rtol=tol, atol=tol * (1 + np.abs(D).sum())):
         bad.append(f"estimate {got.tolist()} is not the mean of the per-probe estimators {want.tolist()}")
     if case["rand"] == "rademacher" and k == 0 and np.array_equal(D, np.diag(np.diag(D))):
@@ -212,7 +238,7 @@ def coq_case(case, obs):
         lit = fhex
         A = case["D"]
         P = [z.astype(np.float64).tolist() for z in obs["probes"]]
-        rel = "0x1p-30%float"
+        rel = "0x1p-12%float" if f32 else "0x1p-30%float"
 
     def mat(m):
         return "[" + ";".join("[" + ";".join(lit(v) for v in row) + "]" for row in m) + "]"
@@ -271,4 +297,39 @@ def unbiased_ztest(ctx, n_ops, n_keys):
             tests += 1
             if abs(m[i] - true[i]) > 8 * s[i] + 1e-12:
                 fails.append(dict(D=D.tolist(), k=k, rand=rand, entry=i, mean=float(m[i]), true=float(true[i]), stderr=float(s[i])))
+    return tests, fails
+
+
+def variance_test(ctx, n_ops, n_keys, blocks=4):
+    """Statistical part (never a theorem), the clause 'within the sampling error implied by its own variance': with `blocks`
+    probe blocks per call, the variance of the estimate over many keys must be the analytic per-probe variance of the dense
+    matrix divided by blocks*bs (Gaussian: 2 A_ii^2 + sum_{j!=i} A_ij^2, Rademacher: sum_{j!=i} A_ij^2). A loop that does not draw
+    fresh, independent probes in every iteration has a variance `blocks` times larger. Returns (tests, failures)."""
+    r = ctx.rng
+    tests, fails = 0, []
+    for _ in range(n_ops):
+        n = r.randint(3, 5)
+        rs = np.random.RandomState(r.randint(0, 2 ** 31))
+        D = rs.randn(n, n)
+        rand = r.choice(["normal", "rademacher"])
+        A = ops.Dense(D)
+        est = []
+        for _k in range(n_keys):
+            rec = Recorder(A)
+            e, _ = hutchinson_diag_estimate(rec.op, 0, tol=1.1e-3, max_iters=blocks, rand=rand, key=r.randint(0, 2 ** 31))
+            if len(rec.seen) == blocks:
+                est.append(np.asarray(e))
+        if len(est) < n_keys // 2:
+            continue
+        est = np.array(est)
+        off = (D ** 2).sum(1) - np.diag(D) ** 2
+        sigma2 = off + (2 * np.diag(D) ** 2 if rand == "normal" else 0)
+        pred = sigma2 / (blocks * min(100, n))
+        s2 = est.var(0, ddof=1)
+        for i in range(n):
+            tests += 1
+            ratio = float(s2[i] / pred[i])
+            if not (0.5 < ratio < 2.0):
+                fails.append(dict(D=D.tolist(), rand=rand, entry=i, blocks=blocks, keys=len(est), sample_variance=float(s2[i]),
+                                  variance_implied_by_independent_probes=float(pred[i]), ratio=ratio))
     return tests, fails
